@@ -465,7 +465,7 @@ theorem w2x_bounded_gen_levels (cfg : W2XCfg) (hm : cfg.main = Gen.main) (bs xml
 
 /-- With the library's tables and no embedded document:
     `|xml| ≤ 72·(1 + 2n(n + 94)) + 2·indent·(1 + 2n(n + 94))·n + 168`. -/
-theorem w2x_bounded_gen (cfg : W2XCfg) (hm : cfg.main = Gen.main) (bs xml : Bytes)
+theorem w2x_bounded_gen_partial (cfg : W2XCfg) (hm : cfg.main = Gen.main) (bs xml : Bytes)
     (h : wbxml2xml cfg bs = .ok xml) (h0 : nesting cfg bs = 0) :
     xml.length ≤ 72 * (1 + 2 * (bs.length * (bs.length + 94))) +
       2 * (indentOf cfg * ((1 + 2 * (bs.length * (bs.length + 94))) * bs.length)) + 168 := by
@@ -544,7 +544,7 @@ example : ∃ xml, wbxml2xml genCfg wmlDoc = .ok xml ∧
   have hw : (wbxml2xml genCfg wmlDoc).toBool = true := by decide +kernel
   have h0 : nesting genCfg wmlDoc = 0 := by decide +kernel
   rcases w2x_total genCfg wmlDoc with ⟨xml, h⟩ | ⟨c, _, hc⟩
-  · exact ⟨xml, h, w2x_bounded_gen genCfg rfl wmlDoc xml h h0⟩
+  · exact ⟨xml, h, w2x_bounded_gen_partial genCfg rfl wmlDoc xml h h0⟩
   · rw [hc] at hw; cases hw
 
 example : ∃ xml, wbxml2xml genCfg siDoc = .ok xml ∧
@@ -552,7 +552,7 @@ example : ∃ xml, wbxml2xml genCfg siDoc = .ok xml ∧
   have hw : (wbxml2xml genCfg siDoc).toBool = true := by decide +kernel
   have h0 : nesting genCfg siDoc = 0 := by decide +kernel
   rcases w2x_total genCfg siDoc with ⟨xml, h⟩ | ⟨c, _, hc⟩
-  · exact ⟨xml, h, w2x_bounded_gen genCfg rfl siDoc xml h h0⟩
+  · exact ⟨xml, h, w2x_bounded_gen_partial genCfg rfl siDoc xml h h0⟩
   · rw [hc] at hw; cases hw
 
 /-- WML 1.3 `<wml><card><p>` … `</p></card></wml>` whose string table holds one string of `k` octets and
